@@ -181,6 +181,11 @@ func (p C07) Run(c *sim.Ctx, t *sim.Tape) sim.RunResult {
 		return p.runConc(c, t)
 	}
 
+	if t.Chance(150) {
+		// the identity manager under the same scheduler.
+		return C15{AsC07: true}.Run(c, t)
+	}
+
 	kinds := []string{
 		"memfs", "orefafs", "rofs/memfs", "rofs/orefafs", "basepath/memfs", "basepath/orefafs", "failfs/memfs", "failfs/orefafs", "memfs", "orefafs",
 	}
